@@ -618,4 +618,143 @@ theorem mkLabel_injective (host : String) (port : Nat) : Function.Injective (mkL
   intro a b h
   exact (String.append_right_inj _).1 h
 
+/-! ## Label invariant: every link's label is the label of its address
+
+`apply_connection_changes` compares LABELS (`format!("{host}:{port} via {ip}")`); the property speaks
+about ADDRESSES. The two readings coincide on every reachable state because a link's label is always
+the label function applied to its address (`LabelInv`), and the real label function is injective. -/
+
+/-- Every link carries the label computed from its own address. -/
+def LabelInv (mk : Ip → Label) (s : Sys) : Prop := ∀ l ∈ s.links, l.label = mk l.ip
+
+/-- `setState` changes nothing but the state token of (at most) one link. -/
+theorem mem_setState {links : List Link} {idx tok : Nat} {l : Link} (h : l ∈ setState links idx tok) :
+    ∃ l0 ∈ links, l.connId = l0.connId ∧ l.ip = l0.ip ∧ l.label = l0.label := by
+  induction links generalizing idx with
+  | nil => simp [setState] at h
+  | cons x xs ih =>
+    cases idx with
+    | zero =>
+      simp only [setState, List.mem_cons] at h
+      rcases h with rfl | h
+      · exact ⟨x, List.mem_cons_self .., rfl, rfl, rfl⟩
+      · exact ⟨l, List.mem_cons_of_mem _ h, rfl, rfl, rfl⟩
+    | succ i =>
+      simp only [setState, List.mem_cons] at h
+      rcases h with rfl | h
+      · exact ⟨l, List.mem_cons_self .., rfl, rfl, rfl⟩
+      · obtain ⟨l0, hl0, h1⟩ := ih h
+        exact ⟨l0, List.mem_cons_of_mem _ hl0, h1⟩
+
+theorem labelInv_setState (mk : Ip → Label) {links : List Link} (idx tok : Nat)
+    (h : ∀ l ∈ links, l.label = mk l.ip) : ∀ l ∈ setState links idx tok, l.label = mk l.ip := by
+  intro l hl
+  obtain ⟨l0, hl0, -, hip, hlab⟩ := mem_setState hl
+  rw [hlab, hip]; exact h l0 hl0
+
+theorem labelInv_startup (mk : Ip → Label) (ips : List Ip) (outs : List (Option ConnOk)) :
+    LabelInv mk (startup mk ips outs) :=
+  (createConnections_spec mk ips outs []).2.2.1
+
+theorem labelInv_applyChanges (mk : Ip → Label) (s : Sys) (newIps : List Ip) (outs : List (Option ConnOk))
+    (h : LabelInv mk s) : LabelInv mk (applyChanges mk s newIps outs) := by
+  intro l hl
+  rw [applyChanges_eq] at hl
+  rcases List.mem_append.1 hl with hl | hl
+  · exact h l ((mem_retained mk s newIps l).1 hl).1
+  · exact (createConnections_spec mk _ outs _).2.2.1 l hl
+
+theorem labelInv_step (mk : Ip → Label) (s : Sys) (op : Op) (h : LabelInv mk s) :
+    LabelInv mk (step mk s op) := by
+  cases op with
+  | sighup file =>
+    simp only [step]
+    split <;> exact h
+  | tick outs =>
+    simp only [step]
+    split
+    · exact labelInv_applyChanges mk _ _ outs h
+    · exact h
+  | track seq id ts => exact h
+  | mutate idx tok => exact labelInv_setState mk idx tok h
+  | select v => exact h
+  | resock idx sock tok =>
+    simp only [step]
+    split
+    · exact labelInv_setState mk idx tok h
+    · exact h
+
+theorem labelInv_run (mk : Ip → Label) (s : Sys) (ops : List Op) (h : LabelInv mk s) :
+    LabelInv mk (run mk s ops) := by
+  induction ops generalizing s with
+  | nil => exact h
+  | cons op ops ih =>
+    simp only [run, List.foldl_cons]
+    exact ih _ (labelInv_step mk s op h)
+
+/-! ### Label membership = address membership (injective label function) -/
+
+theorem mk_mem_map_iff {mk : Ip → Label} (hinj : Function.Injective mk) (ip : Ip) (newIps : List Ip) :
+    mk ip ∈ newIps.map mk ↔ ip ∈ newIps := by
+  rw [List.mem_map]
+  constructor
+  · rintro ⟨x, hx, he⟩; exact hinj he ▸ hx
+  · intro h; exact ⟨ip, h, rfl⟩
+
+/-- Under the invariant a link's label is desired iff its address is listed. -/
+theorem label_desired_iff {mk : Ip → Label} (hinj : Function.Injective mk) {s : Sys}
+    (hinv : LabelInv mk s) (newIps : List Ip) {l : Link} (hl : l ∈ s.links) :
+    l.label ∈ newIps.map mk ↔ l.ip ∈ newIps := by
+  rw [hinv l hl]; exact mk_mem_map_iff hinj _ _
+
+/-- Under the invariant `mk ip` is a current label iff `ip` is a current address. -/
+theorem mk_mem_labels_iff {mk : Ip → Label} (hinj : Function.Injective mk) {s : Sys}
+    (hinv : LabelInv mk s) (ip : Ip) :
+    mk ip ∈ s.links.map (·.label) ↔ ip ∈ s.links.map (·.ip) := by
+  simp only [List.mem_map]
+  constructor
+  · rintro ⟨l, hl, he⟩
+    rw [hinv l hl] at he
+    exact ⟨l, hl, hinj he⟩
+  · rintro ⟨l, hl, he⟩
+    exact ⟨l, hl, by rw [hinv l hl, he]⟩
+
+theorem filter_label_eq_filter_ip {mk : Ip → Label} (hinj : Function.Injective mk) {s : Sys}
+    (hinv : LabelInv mk s) (newIps : List Ip) :
+    s.links.filter (fun l => decide (l.label ∈ newIps.map mk)) =
+      s.links.filter (fun l => decide (l.ip ∈ newIps)) := by
+  apply List.filter_congr
+  intro l hl
+  rw [decide_eq_decide]
+  exact label_desired_iff hinj hinv newIps hl
+
+theorem retained_eq_filter_ip {mk : Ip → Label} (hinj : Function.Injective mk) {s : Sys}
+    (hinv : LabelInv mk s) (newIps : List Ip) :
+    retained mk s newIps = s.links.filter (fun l => decide (l.ip ∈ newIps)) := by
+  rw [← filter_label_eq_filter_ip hinj hinv newIps]
+  simp only [retained, desiredLabels, List.contains_eq_mem]
+
+/-- The removed `conn_id`s, by address. -/
+theorem mem_removedIds_by_ip {mk : Ip → Label} (hinj : Function.Injective mk) {s : Sys}
+    (hinv : LabelInv mk s) (newIps : List Ip) (id : Nat) :
+    id ∈ removedIds mk s newIps ↔ ∃ l, l ∈ s.links ∧ l.ip ∉ newIps ∧ l.connId = id := by
+  rw [mem_removedIds]
+  constructor
+  · rintro ⟨l, hl, hno, he⟩
+    exact ⟨l, hl, fun h => hno ((label_desired_iff hinj hinv newIps hl).2 h), he⟩
+  · rintro ⟨l, hl, hno, he⟩
+    exact ⟨l, hl, fun h => hno ((label_desired_iff hinj hinv newIps hl).1 h), he⟩
+
+theorem removedIds_eq_map_filter_ip {mk : Ip → Label} (hinj : Function.Injective mk) {s : Sys}
+    (hinv : LabelInv mk s) (newIps : List Ip) :
+    removedIds mk s newIps = (s.links.filter (fun l => !decide (l.ip ∈ newIps))).map (·.connId) := by
+  unfold removedIds desiredLabels
+  congr 1
+  apply List.filter_congr
+  intro l hl
+  rw [List.contains_eq_mem]
+  congr 1
+  rw [decide_eq_decide]
+  exact label_desired_iff hinj hinv newIps hl
+
 end Srtla.Reload
